@@ -935,10 +935,14 @@ Lemma hed_of_push_other h k v : ckey_eqb CHedString k = false ->
   hed_of (push_error_context h k v) = hed_of h.
 Proof. intros E. unfold hed_of, push_error_context. cbn [h_ctx]. rewrite ctx_last_app_single, E. reflexivity. Qed.
 
+(* offsets refer to the HED string the issue finally carries: the tag it names occurs in THAT string
+   and the offsets lie inside the tag's span there, hence inside that text *)
 Definition char_in_ctx (i : issue) : Prop :=
   match i_char i with
   | None => True
-  | Some (ci, ce) => exists h, has_hed_ctx i h /\ ci <= ce /\ ce <= length (hs_text h)
+  | Some (ci, ce) => exists h src s e, has_hed_ctx i h /\ i_src i = Some src /\
+                       get_org_span h src = Some (s, e) /\
+                       s <= ci /\ ci <= ce /\ ce <= e /\ e <= length (hs_text h)
   end.
 
 (* located inside its string context, or settled: no further decoration will locate it *)
@@ -971,7 +975,7 @@ Proof.
   { unfold j. rewrite dict_get_add_context, Hl. reflexivity. }
   assert (Lj : loc_ok j).
   { split.
-    - unfold char_in_ctx, has_hed_ctx in *. rewrite Fc, Hd. exact Hc.
+    - unfold char_in_ctx, has_hed_ctx in *. rewrite Fc, Hd, Fs. exact Hc.
     - intro Hn. rewrite (span_depends i j Hd Fs). apply Hs. congruence. }
   destruct (i_char j) as [p|] eqn:Cj.
   - unfold update_error_with_char_pos in D. rewrite Cj in D. inversion D; subst. exact Lj.
@@ -1001,7 +1005,8 @@ Proof.
   { intros s e ns ne G A B Cc.
     destruct (Hw src s e (eq_sym Fs) G) as (L1 & L2 & _).
     split; [|intro N; discriminate N].
-    unfold char_in_ctx. cbn [i_char set_char]. exists h. split; [exact Hd|]. lia. }
+    unfold char_in_ctx. cbn [i_char set_char]. exists h, src, s, e.
+    split; [exact Hd|]. split; [exact Sj|]. split; [exact G|]. lia. }
   assert (Bounds : forall s e, get_org_span h src = Some (s, e) ->
             s <= s + match i_idx j with Some k => k | None => 0 end /\
             s + match i_idx j with Some k => k | None => 0 end <= match i_idx_end j with Some b => s + b | None => e end /\
@@ -1282,4 +1287,96 @@ Proof.
   split; [apply from_strings_span; assumption|].
   pose proof (join_length_ge pre p post) as L.
   split; [lia|]. split; [lia|]. cbn [Nat.add]. apply from_strings_slice; assumption.
+Qed.
+
+(* ================================================================== G. one HED-string context per decorated list *)
+
+(* the loop over {column}-reference combinations as the code has it: a NEW list per combination *)
+Definition combos_own (fixed : bool) (h3 : handler) (combos : list (hstr * list issue)) : res (list issue) :=
+  cat_map (fun cb => with_ctx h3 CHedString (Some (VHed (fst cb))) (fun h4 =>
+                       add_context_and_filter fixed h4 (snd cb))) combos.
+
+(* the variant "collect, then extend once": one list accumulates over the combinations, so the
+   issues of earlier texts are decorated again under the context of every later text *)
+Fixpoint combos_accum (fixed : bool) (h3 : handler) (combos : list (hstr * list issue)) (acc : list issue)
+  : res (list issue) :=
+  match combos with
+  | [] => Ok acc
+  | cb :: rest =>
+      let* d := with_ctx h3 CHedString (Some (VHed (fst cb))) (fun h4 =>
+                  add_context_and_filter fixed h4 (acc ++ snd cb)) in
+      combos_accum fixed h3 rest d
+  end.
+
+Lemma combos_own_loc h3 combos :
+  Forall (fun cb => Forall (raw_wf (fst cb)) (snd cb)) combos ->
+  all_ok char_in_ctx (combos_own true h3 combos).
+Proof.
+  intros H out E.
+  assert (G : Forall loc_ok out).
+  { revert out E. change (all_ok loc_ok (combos_own true h3 combos)). unfold combos_own.
+    apply all_ok_cat_map. intros cb Hin. apply all_ok_with_ctx.
+    eapply acf_loc_hed; [apply hed_of_push_hed|]. rewrite Forall_forall in H. auto. }
+  eapply Forall_impl; [|exact G]. intros a [Ha _]. exact Ha.
+Qed.
+
+(* witness: "{stim}, Black, Black" with stim = Blue | Item/Object: the repeated tag is found at 13..18 in the
+   first substituted text; re-decorated under the second text it names a string that does not contain it *)
+Definition t1_text : str := [66;108;117;101;44;32;66;108;97;99;107;44;32;66;108;97;99;107]%N.
+Definition t2_text : str :=
+  [73;116;101;109;47;79;98;106;101;99;116;44;32;66;108;97;99;107;44;32;66;108;97;99;107]%N.
+Definition t_black : str := [66;108;97;99;107]%N.
+Definition hs_t1 : hstr := HS t1_text [0; 1; 2; 3] [].
+Definition hs_t2 : hstr := HS t2_text [10; 11; 12; 13] [].
+Definition black_tag : srctag :=
+  {| t_id := 3; t_start := 13; t_end := 18; t_text := t_black; t_org := t_black; t_modified := false |}.
+Definition rep_issue : issue :=
+  create_error_object [84;65;71;95;69;88;80;82;69;83;83;73;79;78;95;82;69;80;69;65;84;69;68]%N
+                      {| m_tag := Some t_black; m_frag := None |} sev_error None None (Some (SrcTag black_tag)).
+Definition wc_combos : list (hstr * list issue) := [(hs_t1, [rep_issue]); (hs_t2, [])].
+
+Lemma combos_accum_refuted :
+  Forall (fun cb => Forall (raw_wf (fst cb)) (snd cb)) wc_combos /\
+  (exists out, combos_own true wt_handler wc_combos = Ok out /\ Forall char_in_ctx out /\
+               map i_char out = [Some (13, 18)]) /\
+  exists out i, combos_accum true wt_handler wc_combos [] = Ok out /\ In i out /\
+                i_char i = Some (13, 18) /\ has_hed_ctx i hs_t2 /\ ~ char_in_ctx i.
+Proof.
+  assert (W : Forall (fun cb => Forall (raw_wf (fst cb)) (snd cb)) wc_combos).
+  { constructor; [|constructor; [constructor | constructor]].
+    constructor; [|constructor]. split; [reflexivity|].
+    intros src0 s0 e0 Hs G. cbn [fst] in G. vm_compute in Hs. inversion Hs; subst src0.
+    vm_compute in G. inversion G; subst. vm_compute. repeat split; lia. }
+  split; [exact W|]. split.
+  - destruct (combos_own true wt_handler wc_combos) as [out|] eqn:E; [|vm_compute in E; discriminate].
+    exists out. split; [reflexivity|]. split; [exact (combos_own_loc _ _ W out E)|].
+    vm_compute in E. inversion E. reflexivity.
+  - eexists. eexists. split; [vm_compute; reflexivity|]. split; [left; reflexivity|].
+    split; [reflexivity|]. split; [reflexivity|].
+    unfold char_in_ctx. cbn [i_char]. intros (h & src & s & e & Hh & Hs & G & _).
+    vm_compute in Hh. inversion Hh; subst h. vm_compute in Hs. inversion Hs; subst src.
+    vm_compute in G. discriminate.
+Qed.
+
+(* _check_definitions_bad_spot issues are sorted into place: column "bcol" (definition in a bad spot)
+   comes out before the issue of column "ccol" although it is produced last *)
+Definition k_baddef : str :=
+  [66;65;68;95;68;69;70;73;78;73;84;73;79;78;95;76;79;67;65;84;73;79;78]%N.
+Definition def_tag : source := SrcStr [68;101;102]%N.
+Definition wb_input : sc_input :=
+  {| si_name := Some (VStr [115]%N); si_struct := []; si_refs := []; si_nested := []; si_defs := [];
+     si_cols := [ {| scc_name := [99;99;111;108]%N;
+                     scc_strs := [ {| scs_key := None; scs_hs := wt_hs; scs_basic := [wt_warn]; scs_combos := [] |} ] |} ];
+     si_badspot := [ ([98;99;111;108]%N,
+                      [(k_baddef, {| a_tag := Some def_tag; a_idx := 0; a_idx_end := None; a_sev := None |})]) ] |}.
+
+Example sidecar_badspot_sorted_into_place :
+  exists out, sidecar_validate true true wt_handler wb_input = Ok out /\
+    map (key_at CSidecarCol) out = [KS [98;99;111;108]%N; KS [99;99;111;108]%N] /\
+    StronglySorted (fun a b => issue_leb false a b = true) out.
+Proof.
+  destruct (sidecar_validate true true wt_handler wb_input) as [out|] eqn:E; [|vm_compute in E; discriminate].
+  exists out. split; [reflexivity|]. split.
+  - vm_compute in E. inversion E. reflexivity.
+  - eapply sidecar_output_sorted_fixed. exact E.
 Qed.
